@@ -1,6 +1,7 @@
 package main
 
 import (
+	"time"
 	"fmt"
 	"reflect"
 	"strconv"
@@ -367,6 +368,46 @@ func execOp(s *Sexp) string {
 			a := plenccore.AppendVarUint(nil, v)
 			rv, rn := plenccore.ReadVarUint(cat(a, trail))
 			return fmt.Sprintf("%s %d %d %d", hx(a), plenccore.SizeVarUint(v), rv, rn)
+		})
+	case "bq":
+		// (bq SEC NSEC xTAG xTRAIL): BQTimestampCodec Size/Append with and without tag, Omit, Read of body++trail
+		sec, e1 := strconv.ParseInt(arg(1), 10, 64)
+		nsec, e2 := strconv.ParseInt(arg(2), 10, 64)
+		tag, e3 := unhx(arg(3))
+		trail, e4 := unhx(arg(4))
+		if e1 != nil || e2 != nil || e3 != nil || e4 != nil {
+			return "bad-op"
+		}
+		return guard(func() string {
+			c := plenccodec.BQTimestampCodec{}
+			t := time.Unix(sec, nsec).UTC()
+			p := unsafe.Pointer(&t)
+			body := c.Append(nil, p, nil)
+			tagged := c.Append(nil, p, tag)
+			var back time.Time
+			rd := "err"
+			if n, err := c.Read(cat(body, trail), unsafe.Pointer(&back), c.WireType()); err == nil {
+				rd = fmt.Sprintf("ok %d %d %d", back.Unix(), back.Nanosecond(), n)
+			}
+			om := 0
+			if c.Omit(p) {
+				om = 1
+			}
+			return fmt.Sprintf("%d %s %d %s %d %s", c.Size(p, tag), hx(tagged), c.Size(p, nil), hx(body), om, rd)
+		})
+	case "bqread":
+		d, err := unhx(arg(1))
+		if err != nil {
+			return "bad-op"
+		}
+		return guard(func() string {
+			c := plenccodec.BQTimestampCodec{}
+			var back time.Time
+			n, err := c.Read(d, unsafe.Pointer(&back), c.WireType())
+			if err != nil {
+				return "err"
+			}
+			return fmt.Sprintf("ok %d %d %d", back.Unix(), back.Nanosecond(), n)
 		})
 	case "varucap":
 		// (varucap V PRELEN SPARE): append into a buffer that already holds PRELEN bytes and has SPARE bytes of spare capacity
